@@ -2,8 +2,8 @@ package props
 
 import (
 	"fmt"
-	"path/filepath"
 	"math/rand"
+	"path/filepath"
 	"runtime"
 	"sync"
 	"time"
